@@ -322,6 +322,9 @@ func checkC19(c *Ctx) Meta {
 		if fn.Signature.Recv() != nil && strings.HasSuffix(fn.Signature.Recv().Type().String(), ".LDBBucket") {
 			isWriteBucketFn = true
 		}
+		if fn.Signature.Recv() != nil && strings.HasSuffix(fn.Signature.Recv().Type().String(), ".LDBTransaction") {
+			isWriteBucketFn = true // the transaction's own lookups and creations too
+		}
 		if fn.Name() == "deleteBucket" && fn.Parent() == nil {
 			isWriteBucketFn = true
 		}
@@ -342,7 +345,7 @@ func checkC19(c *Ctx) Meta {
 			}
 			if strings.HasPrefix(op, "Transaction).") {
 				p := accessPath(callRecv(in))
-				if !strings.HasSuffix(p, ".tx.tr") {
+				if !strings.HasSuffix(p, ".tx.tr") && !strings.HasSuffix(p, ".tr") {
 					bad = append(bad, op+" at "+c.Pos(in.Pos())+" uses "+p+" instead of the bucket's own transaction")
 				}
 			}
